@@ -4,7 +4,8 @@ From RP Require Import Lib.Base Lib.Sexp.
 
 (* ---- strconv.Atoi, value returned when the error is ignored (su.Intval etc.) ----
    syntax: optional single '+'/'-', then one or more ASCII digits, nothing else;
-   syntax error -> 0; out of int64 range -> clamped to the nearest bound. *)
+   syntax error -> 0; out of int64 range -> clamped to the nearest bound (exact definition:
+   [atoi] below; [atoi_syntax_ok] / [digits_value] are kept as auxiliary notions). *)
 Definition max_int64 : Z := 9223372036854775807.
 Definition min_int64 : Z := -9223372036854775808.
 
@@ -21,15 +22,40 @@ Definition atoi_syntax_ok (s : list Z) : bool :=
               else all_digits s
   end.
 
+(* ParseUint's digit loop on a uint64 accumulator: None = syntax error (a non-digit met
+   before any overflow); Some max_uint64 = range error, returned AS SOON AS the accumulator
+   overflows - later characters are not examined (strconv/atoi.go, cutoff = maxUint64/10+1). *)
+Definition max_uint64 : Z := 18446744073709551615.
+Fixpoint parse_uint (s : list Z) (n : Z) : option Z :=
+  match s with
+  | [] => Some n
+  | c :: r =>
+    if is_digit c then
+      if n >=? 1844674407370955162 then Some max_uint64
+      else let n1 := n * 10 + (c - 48) in
+           if n1 >? max_uint64 then Some max_uint64 else parse_uint r n1
+    else None
+  end.
+
+(* strconv.Atoi, value returned when the error is ignored: optional single sign, digits;
+   syntax error -> 0; range error -> clamped to the nearest int64 bound.  ">= 20 digits followed
+   by junk" is a range error (clamp), not a syntax error. *)
 Definition atoi (s : list Z) : Z :=
-  if atoi_syntax_ok s then
-    match s with
-    | c :: r =>
-      let v := if c =? 45 then - digits_value r 0 else if c =? 43 then digits_value r 0 else digits_value s 0 in
-      if v >? max_int64 then max_int64 else if v <? min_int64 then min_int64 else v
+  match s with
+  | [] => 0
+  | c :: r =>
+    let neg := c =? 45 in
+    let body := if neg || (c =? 43) then r else s in
+    match body with
     | [] => 0
+    | _ =>
+      match parse_uint body 0 with
+      | None => 0
+      | Some un => if neg then (if un >? 9223372036854775808 then min_int64 else - un)
+                   else (if un >=? 9223372036854775808 then max_int64 else un)
+      end
     end
-  else 0.
+  end.
 
 (* strconv.Itoa / %d is Sexp.itoa *)
 
